@@ -24,6 +24,7 @@ type Case struct {
 	S     bz.Script
 	RD    int
 	Reads []ROp
+	Plain bool // the source is a plain io.Reader (a pipe, a socket): it cannot seek
 }
 
 func draw(t *rapid.T) Case {
@@ -35,6 +36,7 @@ func draw(t *rapid.T) Case {
 		}
 		return ROp{"read", rapid.SampledFrom([]int{0, 1, 2, 7, 4095, 4096, bz.BlockSize - 1, bz.BlockSize, bz.BlockSize + 1, 100000, 1 << 20}).Draw(t, "n")}
 	}), 1, 6).Draw(t, "reads")
+	c.Plain = rapid.Bool().Draw(t, "plainReader")
 	return c
 }
 
@@ -82,11 +84,16 @@ func run(c Case, rec *h.Rec) {
 	rec.ClassIf(st.IncompressibleFull, "incompressible_full_block")
 	rec.ClassIf(c.S.WC > 1 && st.DataMembers >= 3, "wc>1_and_>=3_members")
 	rec.ClassIf(c.RD != 1, "read_ahead")
+	rec.ClassIf(c.Plain, "source_cannot_seek")
 	rec.NTIf(st.DataMembers >= 2 && (st.ExactFill || st.Overflowing || st.Spanning))
 }
 
 func readBack(out, model []byte, c Case) string {
-	r, err := bgzf.NewReader(bytes.NewReader(out), c.RD)
+	var src io.Reader = bytes.NewReader(out)
+	if c.Plain {
+		src = struct{ io.Reader }{src}
+	}
+	r, err := bgzf.NewReader(src, c.RD)
 	if err != nil {
 		return fmt.Sprintf("NewReader on the writer's output: %v", err)
 	}
